@@ -276,6 +276,22 @@ def handleEntryVcd (vars rmap body : String) : String × String :=
   | _, _, _ => ("bad-request", "-")
 
 open Wellen.VcdBody in
+/-- C03: oracle = the single-threaded load of the same body -/
+def handleVcdMt (opts vars rmap body : String) : String × String :=
+  match parseVars vars, parseRealMap rmap, hexBytes? body with
+  | some vs, some rm, some b =>
+    match parseMode opts b.length with
+    | some (.multi t c) =>
+      let d := mkDecls vs
+      let canon := fun (r : String) => if r = "err" || r = "panic" then "fail" else r
+      let st := modelVcd .single d rm b
+      let mt := modelVcd (.multi t c) d rm b
+      let fid := if !handoverSafe b t c then "FMT" else "-"
+      (canon mt, canon st ++ "\t" ++ fid)
+    | _ => ("bad-request", "-")
+  | _, _, _ => ("bad-request", "-")
+
+open Wellen.VcdBody in
 def handleVcd (opts vars rmap body : String) : String × String :=
   match parseVars vars, parseRealMap rmap, hexBytes? body with
   | some vs, some rm, some b =>
@@ -293,6 +309,7 @@ def handleVcd (opts vars rmap body : String) : String × String :=
 def handle (line : String) : String × String :=
   match splitSp line with
   | ["vcd", opts, vars, rmap, body] => handleVcd opts vars rmap body
+  | ["vcdmt", opts, vars, rmap, body] => handleVcdMt opts vars rmap body
   | ["entryvcd", vars, rmap, body] => handleEntryVcd vars rmap body
   | ["entryfile", _] => ("same:ok", "same:ok")
   | ["vcdcut", opts, vars, rmap, body, k, lb] => handleCut opts vars rmap body k lb
